@@ -63,3 +63,21 @@ def identity_pt(n, dim=2, dt=None):
     """Bond-dimension-1 process tensor of a non-existent environment (rank-4 identities)."""
     eye = np.eye(dim * dim, dtype=complex).reshape(1, 1, dim * dim, dim * dim)
     return simple_pt([eye] * n, dim, dt)
+
+
+def long_trivial_pt(n, dim=2, dt=None):
+    """(C07) environment-free process tensor of `n` steps without per-step tensors
+    (a TrivialProcessTensor with a finite length) -- cheap for very long runs."""
+    from oqupy.process_tensor import TrivialProcessTensor
+
+    class _LongTrivialPT(TrivialProcessTensor):
+        def __len__(self):
+            return n
+
+        @property
+        def max_step(self):
+            return n
+
+    pt = _LongTrivialPT(hilbert_space_dimension=dim)
+    pt._dt = dt
+    return pt
